@@ -5,6 +5,7 @@ package main
 // contains only concrete events, so a case replays from its input alone.
 
 import (
+	"math"
 	"math/rand"
 	"strconv"
 	"strings"
@@ -374,6 +375,12 @@ func (g *gen) peerStep() {
 		s := g.snd()
 		b := []int{1, 1, s - 1, s, s + 3, 2, 0, -5, g.rng.Intn(s + 2)}[g.rng.Intn(9)]
 		e := []int{0, 999999, s - 1, s, s + 5, b, b - 1, b + 2, g.rng.Intn(s + 2)}[g.rng.Intn(9)]
+		if g.rng.Intn(8) == 0 { // the far ends of the integer range: the store must not count its way through them
+			b = []int{math.MinInt64, math.MinInt64 + 1 + g.rng.Intn(3), math.MinInt64 + s, -9000000000000000000}[g.rng.Intn(4)]
+			if g.rng.Intn(3) == 0 {
+				e = []int{math.MaxInt64, math.MaxInt64 - 1, 0}[g.rng.Intn(3)]
+			}
+		}
 		m.beginseq = fVal(Int(b))
 		m.endseq = fVal(Int(e))
 		switch g.rng.Intn(14) {
